@@ -14,7 +14,7 @@ GEN = ["GenInstances"]
 ASSUMPTIONS = [
     "an instance influences the daemon only through its truthiness and its __eq__/__hash__ (the two bits of the model); creators are arbitrary but deterministic in the serial number of the invocation",
     "each instrumented primitive (dict get/set on _pyroInstances, lock acquire/release, one creator invocation) is atomic under the GIL and code between two primitives is thread-local",
-    "a connection ends when SocketConnection.close() runs (server loop calls it on disconnect); the loopback transport reproduces the multiplex server's disconnect handling",
+    "a connection ends when SocketConnection.close() runs (server loop calls it on disconnect); the loopback transport reproduces the multiplex server's disconnect handling; an abortive end (TCP reset) is represented by a server-side socket whose shutdown() raises ENOTCONN",
     "classes are registered with a mode accepted by @behavior (single/session/percall) or none (session)",
 ]
 IMPORTS = "From V Require Import Model.Atomic Model.Instances Gen.GenInstances Harness.Cmp Harness.H09."
@@ -199,6 +199,38 @@ def call_result(fn):
         return ["error", type(x).__name__ + ":" + str(x)[:80]]
 
 
+ENDINGS = ("orderly", "reset", "stale", "error")
+
+
+def ending_of(ev):
+    return ev[2] if len(ev) > 2 else "orderly"
+
+
+def end_connection(net, lc, proxy, how):
+    """the ways a connection ends; in every one of them the server side runs SocketConnection.close()
+    (the loopback reproduces the server loop's disconnect handling)"""
+    import errno
+
+    def not_connected(*a):
+        raise OSError(errno.ENOTCONN, "Transport endpoint is not connected")
+    if how == "reset":
+        # abortive end (client killed / SO_LINGER 0 -> TCP reset): the connection is no longer established
+        # when the server closes it, so shutdown() of the server-side socket raises ENOTCONN
+        lc.ssock.shutdown = not_connected
+        net._reset(lc)
+    elif how == "stale":
+        # the server-side socket has already been closed when close() runs: shutdown() raises
+        lc.ssock.close()
+        net._server_close(lc, hook=lc.handshaken)
+    elif how == "error":
+        # the client sends bytes that are not a Pyro message: the server fails the request and closes
+        try:
+            proxy._pyroConnection.sock.sendall(b"\x00garbage-not-pyro" * 4)
+        except Exception:      # noqa
+            pass
+    proxy._pyroRelease()          # orderly: the client closes its socket, the server sees end-of-stream
+
+
 def run_impl(case, tree="/repo"):
     """plays the case on the real code; returns the observation dict"""
     import Pyro5.client, Pyro5.errors
@@ -217,7 +249,7 @@ def run_impl(case, tree="/repo"):
         for i, cls in enumerate(world.classes):
             daemon.register(cls, "cls%d" % i)
         uri0 = daemon.uriFor("cls0")
-        proxies, sconns = {}, {}
+        proxies, sconns, lconns = {}, {}, {}
         with loopback.Loopback(daemon) as net:
             for ev in case["hist"]:
                 if ev[0] == "call":
@@ -228,6 +260,7 @@ def run_impl(case, tree="/repo"):
                         p._pyroBind()
                         proxies[k] = p
                         sconns[k] = net.conns[cid].sconn
+                        lconns[k] = net.conns[cid]
                     p = proxies[k]
                     r = call_result(lambda: p._pyroInvoke("ident", [], {}, objectId="cls%d" % c))
                     if r[0] == "served":
@@ -237,15 +270,18 @@ def run_impl(case, tree="/repo"):
                 else:
                     k = ev[1]
                     if k in proxies:
-                        p, sc = proxies.pop(k), sconns.pop(k)
+                        p, sc, lc = proxies.pop(k), sconns.pop(k), lconns.pop(k)
+                        how = ending_of(ev)
                         held = [serial_of(v) for v in sc.pyroInstances.values()]
-                        p._pyroRelease()
+                        end_connection(net, lc, p, how)
+                        if not lc.server_closed:
+                            obs["errors"].append("connection %d did not end on the server side (%s)" % (k, how))
                         left = len(sc.pyroInstances)
                         alive = [s for s in held if s in world.refs and world.refs[s]() is not None]
                         if alive:
                             gc.collect()
                             alive = [s for s in held if s in world.refs and world.refs[s]() is not None]
-                        obs["dropped"].append({"conn": k, "left": left, "alive": alive})
+                        obs["dropped"].append({"conn": k, "how": how, "left": left, "alive": alive})
                     obs["obs"].append(["closed"])
             # ---- concurrent phase on the same daemon
             results = [[] for _ in case["calls"]]
@@ -384,8 +420,8 @@ def oracle(case, obs):
                     "session-mode class %d: connection %s saw instances %d and %d" % (c, key, prev, nxt))
     for d in obs["dropped"]:
         if d["left"] or d["alive"]:
-            add("session-not-dropped", "after connection %d ended its session table still holds %d entries / instances %s are alive"
-                % (d["conn"], d["left"], d["alive"]))
+            add("session-not-dropped", "after connection %d ended (%s) its session table still holds %d entries / instances %s are alive"
+                % (d["conn"], d.get("how", "orderly"), d["left"], d["alive"]))
     for c, ids in per_percall.items():
         if len(set(ids)) != len(ids):
             add("percall-reused", "percall-mode class %d: %d calls were served by %d instances" % (c, len(ids), len(set(ids))))
@@ -434,7 +470,9 @@ def c_obs(o):
 
 
 def c_event(e):
-    return "Call %s %s" % (cnat(e[1]), cnat(e[2])) if e[0] == "call" else "Close %s" % cnat(e[1])
+    if e[0] == "call":
+        return "Call %s %s" % (cnat(e[1]), cnat(e[2]))
+    return "Close %s %s" % (cnat(e[1]), {"orderly": "EOrderly", "reset": "EReset", "stale": "EStale", "error": "EError"}[ending_of(e)])
 
 
 def c_optnat(x):
@@ -504,7 +542,7 @@ def gen_case(rng, conc=None):
     hist = []
     for _ in range(rng.choice([0, 2, 4, 6, 9, 12])):
         if rng.random() < 0.18:
-            hist.append(["close", rng.randrange(nconn)])
+            hist.append(["close", rng.randrange(nconn), rng.choice(ENDINGS)])
         else:
             hist.append(["call", rng.randrange(nconn), hot if rng.random() < 0.5 else rng.randrange(ncls)])
     calls, sched = [], []
@@ -531,8 +569,8 @@ def family_cases():
     out = [WITNESS_FALSY]
     T, F = True, False
     # every instance shape x mode x creator kind, sequentially: two connections, close, reopen
-    hist = [["call", 0, 0], ["call", 0, 0], ["call", 1, 0], ["call", 0, 0], ["close", 0], ["call", 0, 0], ["call", 1, 0],
-            ["close", 1], ["close", 0], ["call", 0, 0]]
+    hist = [["call", 0, 0], ["call", 0, 0], ["call", 1, 0], ["call", 0, 0], ["close", 0, "reset"], ["call", 0, 0], ["call", 1, 0],
+            ["close", 1, "stale"], ["close", 0, "error"], ["call", 0, 0], ["call", 1, 0], ["close", 1, "orderly"], ["call", 1, 0]]
     for mode in ("single", "session", "percall", "default"):
         for flavour in ("plain", "len", "bool"):
             for eq in (F, T):
@@ -576,6 +614,9 @@ def execute(ctx, cases, model_ok, res):
         if case["calls"]:
             res.count("threads_%d" % len(case["calls"]))
             res.count("sched_complete" if all(obs["done"]) else "sched_incomplete")
+        for ev in case["hist"]:
+            if ev[0] == "close":
+                res.count("end:" + ending_of(ev))
         for spec in case["classes"]:
             res.count("class:%s/%s%s/%s" % (mode_of(spec), spec["flavour"], "+eq" if spec["eq"] else "", spec["creator"]))
         for o in obs["obs"] + [r for rs in obs["final"]["results"] for _, r in rs]:
